@@ -88,6 +88,12 @@ claim("C09", "exploration",
   "deterministic simulation: simulator-owned garbage collection and close/drop events over module graphs, twin-runtime oracle, process-survival watchdog",
   "DESIGN.md §5 C09")
 
+claim("C12", "exploration",
+  "Configuration swarm with stateful caches: per run a plan, a call script and 2-4 runtime descriptions drawn from {cache none/private/shared in-memory/directory} x capacity-from-max x allocator {default, slice, slice with spare capacity} x debug info x custom sections x listeners {none, all, subset} x close-on-context-done, executed in tape order over shared cache objects (an entry compiled under one setting is reused under another; later directory users start warm from real files); each runtime's canonical trace (results, error kinds, host-call log, final state, memory.size) must equal the baseline configuration's on the same engine. Weakest fit of the claimed set for this technique (mostly a lattice that is sampled); the simulation-relevant part is the order-dependent cache state.",
+  "Trusted: the canonical trace function; the lattice is sampled, not enumerated.",
+  "deterministic simulation (swarm): seeded configuration tuples and cache-touch orders vs baseline-trace oracle",
+  "DESIGN.md §5 C12")
+
 def main():
     m = dict(version=1,
       setup_cmd="./setup.sh",
